@@ -36,6 +36,10 @@ struct Shared {
     /// the next re-registration that asks for writable sleeps this long first (it is the last thing
     /// a pass of the I/O loop does before it polls again)
     park_next_rereg_ms: u64,
+    /// ... or right AFTER it: the socket's event is then queued before whatever arrives on the
+    /// channels during the stall, so the next batch is [socket, channel] - the order a real socket
+    /// gives (mio 0.6 reports the selector's events before those of its user-space queue)
+    park_rereg_after: bool,
     reads: usize,
     writes: usize,
     dropped: bool,
@@ -70,6 +74,7 @@ pub fn pair() -> (MockStream, Peer) {
             write_hiccup: None,
             park_next_write_ms: 0,
             park_next_rereg_ms: 0,
+            park_rereg_after: false,
             reads: 0,
             writes: 0,
             dropped: false,
@@ -205,13 +210,23 @@ impl Evented for MockStream {
         self.registration.register(poll, token, interest, opts)
     }
     fn reregister(&self, poll: &Poll, token: Token, interest: Ready, opts: PollOpt) -> io::Result<()> {
+        let mut after = 0;
         if interest.is_writable() {
-            let park = std::mem::replace(&mut self.shared.0.lock().unwrap().park_next_rereg_ms, 0);
-            if park > 0 {
+            let (park, late) = {
+                let mut sh = self.shared.0.lock().unwrap();
+                (std::mem::replace(&mut sh.park_next_rereg_ms, 0), sh.park_rereg_after)
+            };
+            if park > 0 && !late {
                 std::thread::sleep(Duration::from_millis(park));
+            } else {
+                after = park;
             }
         }
-        self.registration.reregister(poll, token, interest, opts)
+        let r = self.registration.reregister(poll, token, interest, opts);
+        if after > 0 {
+            std::thread::sleep(Duration::from_millis(after));
+        }
+        r
     }
     fn deregister(&self, poll: &Poll) -> io::Result<()> {
         poll.deregister(&self.registration)
@@ -320,7 +335,16 @@ impl Peer {
 
     /// The next re-registration for writable stalls its thread for `ms` first.
     pub fn park_next_rereg(&self, ms: u64) {
-        self.shared.0.lock().unwrap().park_next_rereg_ms = ms;
+        let mut sh = self.shared.0.lock().unwrap();
+        sh.park_next_rereg_ms = ms;
+        sh.park_rereg_after = false;
+    }
+
+    /// The next re-registration for writable stalls its thread for `ms` right after it took effect.
+    pub fn park_after_next_rereg(&self, ms: u64) {
+        let mut sh = self.shared.0.lock().unwrap();
+        sh.park_next_rereg_ms = ms;
+        sh.park_rereg_after = true;
     }
 
     /// The next write call stalls its thread for `ms` before it proceeds.
